@@ -38,6 +38,7 @@ class Ctx:
         self.extra = {}
         self.inconclusive = 0
         self.first_desc = {}
+        self.first_replay = {}
 
     @property
     def thorough(self):
@@ -61,6 +62,9 @@ class Ctx:
         for k, d in st.first_desc.items():
             if k not in self.first_desc or len(d) < len(self.first_desc[k]):
                 self.first_desc[k] = d
+        for k, r in getattr(st, "first_replay", {}).items():
+            if r is not None and (k not in self.first_replay or len(json.dumps(r)) < len(json.dumps(self.first_replay[k]))):
+                self.first_replay[k] = r
         for s in st.samples:
             if len(self.samples) < 10:
                 self.samples.append(s)
@@ -127,6 +131,12 @@ class Ctx:
         print(f"{prop} {self.tier}: evaluations={self.evaluations} distinct_nontrivial={len(self.nontrivial)} "
               f"violations={n_viol} inconclusive={self.inconclusive} wall={time.time()-self.start:.1f}s")
         if self.collect_all():
+            # development mode: keep one replay per collected key for tools/kf_bulk.py
+            cdir = os.path.join(VERIF, "work", "collect", prop)
+            os.makedirs(cdir, exist_ok=True)
+            for k, r in self.first_replay.items():
+                if k not in self.open_keys:
+                    json.dump({"key": k, "replay": r}, open(os.path.join(cdir, "%016x.json" % h64(k)), "w"), indent=1)
             for k, v in sorted(self.known_hits.items()):
                 if k not in self.open_keys:
                     print(f"COLLECT {v:6d} {k}")
@@ -158,6 +168,7 @@ class Stats:
         self.violations = {}
         self.inconclusive = 0
         self.first_desc = {}
+        self.first_replay = {}
 
     def cls(self, name, n=1):
         self.classes[name] = self.classes.get(name, 0) + n
@@ -187,6 +198,7 @@ def run_hypothesis_worker(args):
                 stats.known_hits[f.key] = stats.known_hits.get(f.key, 0) + 1
                 if f.key not in stats.first_desc or len(f.desc) < len(stats.first_desc[f.key]):
                     stats.first_desc[f.key] = f.desc
+                    stats.first_replay[f.key] = f.replay
                 return
             state["fail"] = f
             raise
@@ -238,6 +250,7 @@ def _batch_worker(args):
                         stats.known_hits[f.key] = stats.known_hits.get(f.key, 0) + 1
                         if f.key not in stats.first_desc or len(f.desc) < len(stats.first_desc[f.key]):
                             stats.first_desc[f.key] = f.desc
+                            stats.first_replay[f.key] = f.replay
                     else:
                         stats.violations.setdefault(f.key, (f.desc, f.replay))
                     # continue with the rest of the batch: drop the offending cell(s) and retry
